@@ -334,8 +334,9 @@ def run_history(rec, kind, rnd, cycles, case):
                 rec.count("histories_with_rival_caller")
             circ = Circ(dut, callers + ([rival] if rival is not None else []), targets)
             sim = PysimSimulator(circ, max_cycles=cycles + 10)
-            from .. import txsan
+            from .. import txsan, passive
             txsan.maybe_attach(sim, case)
+            passive.maybe_attach(sim, case)
         except Exception:
             rec.check("constructs", False, case=case, detail=traceback.format_exc()[-1200:])
             return
